@@ -31,7 +31,7 @@ CLAUSE_PROPERTY = {
     "PolicyBeforeWarmup": "C13", "ExploreOnlyInWarmup": "C13",
     "FrozenComponentChanged": "C05", "StoringChangesNothing": "C05", "ActingChangesNothing": "C05", "TrainedOnlyWhenDue": "C05",
     "UpdateMissing": "C05", "ChangeOutsideLearning": "C05",
-    "HardCopyIsCopy": "C06", "CopyGroupIncomplete": "C06", "TargetsOnlyAtUpdatePoints": "C06", "TargetUpdateMissing": "C06", "TargetChangeOutsideLearning": "C06",
+    "HardCopyIsCopy": "C06", "TargetLawInRun": "C06", "CopyGroupIncomplete": "C06", "TargetsOnlyAtUpdatePoints": "C06", "TargetUpdateMissing": "C06", "TargetChangeOutsideLearning": "C06",
 }
 
 
